@@ -23,7 +23,10 @@ CHECKS = {
             'messages with generated event names, JSON+bytes payloads and '
             'handler return values; oracle = per-message expected argument '
             'list under typed deep equality, per-pair FIFO, callback and '
-            'call() result shaping.'),
+            'call() result shaping. Payloads include dicts that resemble '
+            'the attachment placeholder; dicts that ARE placeholders on the '
+            'wire next to bytes are the known finding '
+            'C02:placeholder_lookalike, exercised in a separate last phase.'),
     'C03': ('DESIGN 4/C03',
             'Seeded search over histories of room operations, lifecycle '
             'events and emits (to = None / room / list / sid, skip_sid = None '
